@@ -316,7 +316,9 @@ pub fn nagle(tier: Tier, on: bool, depth: usize) -> Driver {
         Act::Write(MSS),
         Act::Write(MSS + 1),
         Act::Write(2 * MSS + 1),
+        Act::Write(2),
         state(AckSpec::All, w(MSS), SackSpec::None),
+        state(AckSpec::All, w(MSS + 5), SackSpec::None),
         state(AckSpec::All, w(3 * MSS + 1), SackSpec::None),
         state(AckSpec::Plus(1), w(1 << 20), SackSpec::None),
         state(AckSpec::All, w(1 << 20), SackSpec::None),
@@ -554,6 +556,26 @@ pub fn mtu_probe_sacked(tier: Tier, probe_retx: usize, depth: usize) -> Driver {
     d
 }
 
+/// Small and large writes on a probing path (link MTU 700: sizes 528..652), Nagle on or off: short
+/// segments land on the slots where a probe is due.
+pub fn nagle_mtu(tier: Tier, on: bool, probe_retx: usize, depth: usize) -> Driver {
+    let mut d = mtu(tier, 700, None, None, probe_retx, depth);
+    let def = WndSpec::Default;
+    d.name = format!("nagle-mtu-{}-retx{probe_retx}", if on { "on" } else { "off" });
+    d.cfg.nagle = on;
+    d.alphabet = vec![
+        Act::Write(1),
+        Act::Write(100),
+        Act::Write(600),
+        Act::Write(1500),
+        state(AckSpec::Plus(1), def, SackSpec::None),
+        state(AckSpec::All, def, SackSpec::None),
+        Act::Tick,
+        Act::Spurious,
+    ];
+    d
+}
+
 /// The same with traffic in both directions: the peer's own (larger) payloads raise the proven size
 /// while the probe is outstanding, and the application adds a short remainder - a re-cut of the
 /// probe's sequence number then comes out in another size.
@@ -599,5 +621,7 @@ pub fn all_drivers(tier: Tier) -> Vec<Driver> {
     v.push(mtu_probe_sacked(tier, 0, 5));
     v.push(mtu_probe_sacked(tier, 1, 5));
     v.push(mtu_probe_sacked_bidir(tier, 0, 5));
+    v.push(nagle_mtu(tier, false, 1, 5));
+    v.push(nagle_mtu(tier, true, 1, 5));
     v
 }
